@@ -464,6 +464,11 @@ caf_read_header (SF_PRIVATE *psf)
 				{	psf_log_printf (psf, "%M : -1\n") ;
 					chunk_size = psf->filelength - psf->header.indx ;
 					}
+				else if (chunk_size < 4)
+				{	/* No room for the edit count (or the chunk size could not be read). */
+					psf_log_printf (psf, "%M : %D (should be >= 4)\n", marker, chunk_size) ;
+					return SFE_MALFORMED_FILE ;
+					}
 				else if (psf->filelength > 0 && chunk_size > psf->filelength - psf->header.indx + 10)
 				{	psf_log_printf (psf, "%M : %D (should be %D)\n", marker, chunk_size, psf->filelength - psf->header.indx - 8) ;
 					psf->datalength = psf->filelength - psf->header.indx - 8 ;
